@@ -11,10 +11,17 @@ import (
 	"verifsim/internal/overlay"
 )
 
-const (
-	repoRoot = "/repo"
-	goRoot   = "/opt/veriftools/go1.26.8"
-)
+const goRoot = "/opt/veriftools/go1.26.8"
+
+// repoRoot is /repo. VERIF_SCRATCH_REPO (never set by a registered command) lets a copy of
+// /verif whose go.mod points elsewhere be tried against a scratch worktree carrying a
+// seeded change while /repo itself is busy with a long run.
+var repoRoot = func() string {
+	if v := os.Getenv("VERIF_SCRATCH_REPO"); v != "" {
+		return v
+	}
+	return "/repo"
+}()
 
 // verifRoot is /verif unless VERIF_ROOT points at a snapshot of it (vp run).
 var verifRoot = func() string {
